@@ -1,6 +1,7 @@
 import BeffVerif.Props.C16
 import BeffVerif.Props.C16Order
 import BeffVerif.Props.C16Names
+import BeffVerif.Props.C16Refs
 open BeffVerif.C16
 #print axioms store_keeps
 #print axioms store_defines
@@ -20,3 +21,8 @@ open BeffVerif.C16
 #print axioms BeffVerif.C16N.names_order_independent
 #print axioms BeffVerif.C16N.no_mark_left
 #print axioms BeffVerif.C16N.functionalN_of_no_union
+#print axioms BeffVerif.C16R.sok_rnb
+#print axioms BeffVerif.C16R.sok_merge
+#print axioms BeffVerif.C16R.schema_refs
+#print axioms BeffVerif.C16R.definition_refs_resolve
+#print axioms BeffVerif.C16R.returned_refs_resolve
